@@ -537,7 +537,9 @@ class HttpParser(abc.ABC, Generic[_MsgT]):
                     max_line_length = (
                         self.max_field_size if self._lines else self.max_line_size
                     )
-                    if len(self._tail) > max_line_length:
+                    # A trailing CR may be the first half of the line terminator.
+                    tail_len = len(self._tail) - self._tail.endswith(b"\r")
+                    if tail_len > max_line_length:
                         raise LineTooLong(self._tail[:100] + b"...", max_line_length)
                     data = EMPTY
                     break
@@ -1000,7 +1002,9 @@ class HttpPayloadParser:
                     max_line_length = self._max_line_size
                     if self._chunk == ChunkState.PARSE_TRAILERS:
                         max_line_length = self._max_field_size
-                    if len(self._chunk_tail) > max_line_length:
+                    # A trailing CR may be the first half of the line terminator.
+                    tail_len = len(self._chunk_tail) - self._chunk_tail.endswith(b"\r")
+                    if tail_len > max_line_length:
                         raise LineTooLong(
                             self._chunk_tail[:100] + b"...", max_line_length
                         )
